@@ -58,6 +58,10 @@ Idempotent == (37 \notin S.bits) => EncStr(S, Enc) = Enc
 DecodeLaw == IF InSet(S, 37) THEN PctDecode(Enc) = Utf8Str(str) ELSE PctDecode(Enc) = PctDecode(str)
 CodecLaws == Mode = "codec" => EncShape(str, 1, Enc) /\ NoMemberLeft /\ Idempotent /\ DecodeLaw
 
+(* WithPercentEncodeSinglePercentSign: a '%' that does not start a valid escape is itself encoded (%25); nothing else changes *)
+EncSinglePct == Flat([i \in 1..Len(str) |-> IF str[i] = 37 /\ ~IsPctTriple(str, i) THEN PctCp(37) ELSE EncCp(S, str[i])])
+SinglePctNeutral == (Mode = "codec" /\ ~\E i \in 1..Len(str) : str[i] = 37 /\ ~IsPctTriple(str, i)) => EncSinglePct = Enc
+
 (* ---- emission ---- *)
 SetToSortedSeq(B) == LET RECURSIVE f(_) f(T) == IF T = {} THEN <<>> ELSE LET m == CHOOSE x \in T : \A y \in T : x <= y IN <<m>> \o f(T \ {m}) IN f(B)
 SetJson(s) == [below |-> s.below, bits |-> SetToSortedSeq(s.bits)]
@@ -65,5 +69,5 @@ Emit ==
   CASE Mode = "sets" -> \A i \in 1..6 : PrintT(ToJson([t |-> "set", name |-> SetNames[i], set |-> SetJson(InitReg[i])]))
     [] Mode = "derive" -> PrintT(ToJson([t |-> "derive", steps |-> [i \in 1..Len(hist) |-> [src |-> hist[i].src, op |-> hist[i].op, bits |-> SetToSortedSeq(hist[i].bits)]],
                                          reg |-> [i \in 1..Len(reg) |-> SetJson(reg[i])]]))
-    [] Mode = "codec" -> PrintT(ToJson([t |-> "codec", s |-> str, set |-> SetJson(S), enc |-> Enc, dec |-> PctDecode(str), decenc |-> PctDecode(Enc)]))
+    [] Mode = "codec" -> PrintT(ToJson([t |-> "codec", s |-> str, set |-> SetJson(S), enc |-> Enc, enc1 |-> EncSinglePct, dec |-> PctDecode(str), decenc |-> PctDecode(Enc)]))
 ====
